@@ -238,3 +238,112 @@ Inductive reach_rf (ws : bool) : st -> Prop :=
 Inductive chain (s : st) : nat -> nat -> Prop :=
 | chain_one a d : In d (snap (acts s a)) -> chain s a d
 | chain_more a c d : In c (snap (acts s a)) -> chain s c d -> chain s a d.
+
+(* ------------------------------------------------------------------------------------------
+   Driver level (used by the tie): what the Go harness does is a sequence of driver actions;
+   after each one the real system runs on its own until every goroutine is blocked at a gate the
+   harness controls (a gated PostStop or PreStart).  [quiesce] runs the internal labels of the
+   small-step system the same way: every state it passes through is reached by [step]. *)
+Inductive daction :=
+| DSpawn (p c : nat)          (* parent.SpawnChild(c), ungated: returns when done *)
+| DSpawnGated (p c : nat)     (* go parent.SpawnChild(c); the child's PreStart blocks at the gate *)
+| DSpawnRelease (c : nat)     (* let the child's PreStart return *)
+| DStop (a : nat)             (* go a.Shutdown() *)
+| DRelease (a : nat).         (* let a's PostStop return *)
+
+Fixpoint first_some {A B} (f : A -> option B) (l : list A) : option B :=
+  match l with
+  | [] => None
+  | x :: l' => match f x with Some y => Some y | None => first_some f l' end
+  end.
+
+(* internal labels possibly enabled for actor a (n = number of actors, gated = PostStop gates) *)
+Definition internal_labels (gated : list nat) (s : st) (a : nat) : list label :=
+  match sp (acts s a) with
+  | SLocked => [LSnapshot a]
+  | SKids [] => [LPostBegin a]
+  | SKids p =>
+    flat_map (fun e => match snd e with
+                       | PTodo => [LDisownTest a (fst e)]
+                       | PWait => [LDisownDone a (fst e); LStopBegin (fst e)]
+                       end) p
+  | SPost => if existsb (Nat.eqb a) gated then [] else [LPostEnd a]
+  | SIdle => []
+  end.
+
+Definition try_labels (ws : bool) (s : st) (ls : list label) : option st :=
+  first_some (step ws s) ls.
+
+Definition internal_step (ws : bool) (gated : list nat) (n : nat) (s : st) : option st :=
+  match first_some (fun a => try_labels ws s (internal_labels gated s a)) (seq 0 n) with
+  | Some s' => Some s'
+  | None => match term s with a :: _ => step ws s (LReap a) | [] => None end
+  end.
+
+Fixpoint quiesce (ws : bool) (gated : list nat) (n : nat) (fuel : nat) (s : st) : st :=
+  match fuel with
+  | O => s
+  | S f => match internal_step ws gated n s with Some s' => quiesce ws gated n f s' | None => s end
+  end.
+
+Definition drive1 (ws : bool) (s : st) (d : daction) : option st :=
+  match d with
+  | DSpawn p c => run ws s [LSpawnCheck p c; LSpawnInit c; LSpawnAdd c]
+  | DSpawnGated p c => step ws s (LSpawnCheck p c)
+  | DSpawnRelease c => run ws s [LSpawnInit c; LSpawnAdd c]
+  | DStop a => match step ws s (LStopBegin a) with
+               | Some s' => Some s'
+               | None => Some s      (* not running: returns at once; stop in flight: the caller blocks on stopLocker *)
+               end
+  | DRelease a => step ws s (LPostEnd a)
+  end.
+
+(* None result of drive1 = the action is refused by the implementation too (SpawnChild on a
+   non-running parent returns ErrDead): state unchanged, flag 1 *)
+Definition drive (ws : bool) (gated : list nat) (n : nat) (s : st) (d : daction) : st * nat :=
+  match drive1 ws s d with
+  | Some s' => (quiesce ws gated n (64 * S n) s', 0)
+  | None => (s, 1)
+  end.
+
+(* what the harness can see after quiescence, per actor 0..n-1:
+   [in PostStop gate; IsRunning; PostStop completed; registered] then its registered children *)
+Definition sp_is_post (x : sproc) : bool := match x with SPost => true | _ => false end.
+Definition ev_postE_in (a : nat) (tr : list ev) : bool :=
+  existsb (fun e => match e with EPostE b => Nat.eqb a b | _ => false end) tr.
+Definition b2n (b : bool) : nat := if b then 1 else 0.
+Fixpoint ins_sorted (x : nat) (l : list nat) : list nat :=
+  match l with [] => [x] | y :: l' => if Nat.leb x y then x :: l else y :: ins_sorted x l' end.
+Definition sort_nats (l : list nat) : list nat := fold_right ins_sorted [] l.
+
+Definition observe (n : nat) (s : st) : list (list nat) :=
+  flat_map (fun a => [ [b2n (sp_is_post (sp (acts s a))); b2n (is_running (acts s a));
+                        b2n (ev_postE_in a (trace s)); b2n (reg (acts s a))];
+                       sort_nats (children s a) ]) (seq 0 n).
+
+Fixpoint drive_obs (ws : bool) (gated : list nat) (n : nat) (s : st) (ds : list daction)
+  : list (nat * list (list nat)) :=
+  match ds with
+  | [] => []
+  | d :: ds' => let '(s', flag) := drive ws gated n s d in (flag, observe n s') :: drive_obs ws gated n s' ds'
+  end.
+
+Fixpoint obs_eqb (a b : list (list nat)) : bool :=
+  match a, b with
+  | [], [] => true
+  | x :: a', y :: b' => (fix leq (u v : list nat) : bool :=
+                           match u, v with
+                           | [], [] => true
+                           | p :: u', q :: v' => Nat.eqb p q && leq u' v'
+                           | _, _ => false
+                           end) x y && obs_eqb a' b'
+  | _, _ => false
+  end.
+Fixpoint first_obs_diff (i : nat) (xs ys : list (nat * list (list nat))) : option nat :=
+  match xs, ys with
+  | [], [] => None
+  | x :: xs', y :: ys' => if Nat.eqb (fst x) (fst y) && obs_eqb (snd x) (snd y) then first_obs_diff (S i) xs' ys' else Some i
+  | _, _ => Some i
+  end.
+Definition scenario_diff (ws : bool) (c : list nat * nat * list daction * list (nat * list (list nat))) : option nat :=
+  let '(gated, n, ds, expected) := c in first_obs_diff 0 (drive_obs ws gated n init ds) expected.
